@@ -165,7 +165,7 @@ Proof.
     eapply Reach_trans; [eapply move_reach; eauto|].
     repeat dmatch H; try (inv H; constructor). eapply drop_off_trip_reach; eauto.
   - eapply move_reach; eauto.
-  - eapply charge_reach; eauto.
+  - unfold charge_unless_full in H. repeat dmatch H; try (inv H; constructor); eapply charge_reach; eauto.
   - repeat dmatch H. apply Reach_one. eapply P_modv; eauto.
   - eapply move_reach; eauto.
   - inv H. constructor.
